@@ -24,7 +24,7 @@ package align
 
 
 //@ func (*align).RemoveCharacterSites
-//@   props C12
+//@   props C12 C01
 //@   requires wfa(a)
 // first / last: lengths of the maximal qualifying prefix / suffix
 //@   ensures 0 <= first && first <= max(old(a.length), 0) && (forall k :: 0 <= k && k < first ==> c12b_SH(a, c, cutoff, ignoreCase, ignoreGaps, ignoreNs, reverse, k)) && (first < old(a.length) ==> !c12b_SH(a, c, cutoff, ignoreCase, ignoreGaps, ignoreNs, reverse, first))
@@ -94,7 +94,7 @@ package align
 // arithmetic and column selection; the removal-rule clauses are those of RemoveCharacterSites with c = {'-'} (the slice literal is
 // local to the wrapper, so they are not restated here).
 //@ func (*align).RemoveGapSites
-//@   props C12
+//@   props C12 C01
 //@   requires wfa(a)
 //@   ensures 0 <= first && first <= max(old(a.length), 0) && 0 <= last && last <= max(old(a.length), 0)
 //@   ensures nrows(a) == old(nrows(a)) && a.length <= old(a.length)
@@ -122,7 +122,7 @@ package align
 //@ pure func c12b_QR(a *align, c int, cutoff real, ic bool, ig bool, ign bool, n int) int = old(c12b_qrank(a, c, cs_cut(cutoff), ic, ig, ign, n))
 
 //@ func (*align).RemoveCharacterSeqs
-//@   props C12
+//@   props C12 C01
 //@   requires wfa(a)
 //@   ensures wfa(a) && 0 <= result && result <= old(nrows(a)) && a.alphabet == old(a.alphabet)
 // a row is removed iff it qualifies (c12b_QH: the rule of the property statement over the row); the kept rows keep their order (rank), name and residues
@@ -145,7 +145,7 @@ package align
 
 // RemoveGapSeqs = RemoveCharacterSeqs(GAP, cutoff, false, false, ignoreNs): the callee's clauses with c = '-'
 //@ func (*align).RemoveGapSeqs
-//@   props C12
+//@   props C12 C01
 //@   requires wfa(a)
 //@   ensures wfa(a) && 0 <= result && result <= old(nrows(a)) && a.alphabet == old(a.alphabet)
 //@   ensures nrows(a) == c12b_QR(a, GAP, cutoff, false, false, ignoreNs, old(nrows(a))) && nrows(a) + result == old(nrows(a)) && (nrows(a) > 0 ==> a.length == old(a.length))
